@@ -232,6 +232,33 @@ def run(world, rep, tier, only=None):
         rep.ob("C02.g", site(eg, "child node's eh_depth compared with its level#%d" % i), ok,
                "after the child block is read, `eh_depth != max_depth - level` leads to a non-zero return without the node being accepted")
 
+    # ------------------------------------------------------------------ C02.h a read that is meant to verify comes from the disk
+    # During pass 1 of a file system with 128-byte inodes fs->read_inode points at pass1_read_inode(), which serves the
+    # inode number in ctx->stashed_ino from memory - without any checksum test.  A read whose *result* is taken as
+    # the checksum verdict (compared with EXT2_ET_INODE_CSUM_INVALID) must have taken the stash out of the way.
+    n_h = 0
+    for f in prog.fns_in_file("e2fsck/pass1.c"):
+        for rd in calls_to(f, "ext2fs_read_inode_full", "ext2fs_read_inode", "ext2fs_read_inode2"):
+            cid = rd.ev["x"].get("id")
+            holder = [T.path(s_.ev["lhs"]) for s_ in f.events("S") if isinstance(s_.ev.get("rhs"), dict) and
+                      any(c.get("id") == cid for c in T.calls(s_.ev["rhs"]))]
+            verdict = False
+            for bid in f.blocks:
+                lit = f.literal(bid)
+                if lit and "EXT2_ET_INODE_CSUM_INVALID" in T.macros(lit[0]) and \
+                        (any(c.get("id") == cid for c in T.calls(lit[0])) or (set(holder) & T.vars_in(lit[0]))) and \
+                        f.block_end(bid) in f.reach(f.after(rd)):
+                    verdict = True
+            if not verdict:
+                continue
+            n_h += 1
+            clears = [s_ for s_ in f.events("S") if T.last_field(s_.ev["lhs"]) == ("e2fsck_struct", "stashed_ino") and
+                      T.const(s_.ev.get("rhs")) == 0]
+            rep.ob("C02.h", site(f, "verifying re-read bypasses the stashed inode#%d" % n_h), bool(clears) and f.dominated_by(rd, clears),
+                   "`ctx->stashed_ino = 0` dominates `%s` (line %d), whose result is compared with EXT2_ET_INODE_CSUM_INVALID" %
+                   (rd.text()[:40], rd.line))
+    rep.floor("C02.h inode reads in pass1.c whose result is the checksum verdict", n_h, 1)
+
 
 def _aborts_after(prog, fn, n):
     """every path from the call to the function's exit passes ctx->flags |= E2F_FLAG_ABORT or a noreturn call"""
